@@ -98,6 +98,9 @@ pub fn decode_body(bytes: Vec<u8>, content_encoding: Option<&str>) -> Result<Str
                 // If encoding_rs returned a `Cow::Borrowed`, the bytes are guaranteed to be valid
                 // UTF-8, by virtue of being UTF-8 or being in the subset of ASCII that is the same
                 // in UTF-8.
+                // The borrowed text is shorter than the input when a byte order mark was removed,
+                // in which case the input buffer is not the decoded text and can't be reused.
+                Cow::Borrowed(text) if text.len() != bytes.len() => text.to_owned(),
                 Cow::Borrowed(_) => unsafe { String::from_utf8_unchecked(bytes) },
                 Cow::Owned(string) => string,
             })
